@@ -276,3 +276,68 @@ func inLoop(f *FuncInfo, n ast.Node) bool {
 	})
 	return found
 }
+
+// indexPairing checks, in fn, that every assignment M[k] = R into an int-valued index map directly follows
+// `U = append(U, x)` in the same block and that R is len(U) − 1 (the position x was appended at).
+// Returns the number of pairs and a description of the first violation ("" when fine).
+func indexPairing(info *types.Info, fn *FuncInfo) (int, string, token.Pos) {
+	n := 0
+	bad := ""
+	var badPos token.Pos
+	ast.Inspect(fn.Body(), func(nd ast.Node) bool {
+		blk, ok := nd.(*ast.BlockStmt)
+		if !ok {
+			return true
+		}
+		for i, st := range blk.List {
+			as, ok := st.(*ast.AssignStmt)
+			if !ok || len(as.Lhs) != 1 || len(as.Rhs) != 1 {
+				continue
+			}
+			ie, ok := unparen(as.Lhs[0]).(*ast.IndexExpr)
+			if !ok {
+				continue
+			}
+			mt, ok := info.Types[ie.X].Type.Underlying().(*types.Map)
+			if !ok {
+				continue
+			}
+			if b, ok := mt.Elem().Underlying().(*types.Basic); !ok || b.Kind() != types.Int {
+				continue
+			}
+			n++
+			// previous statement: U = append(U, x)
+			if i == 0 {
+				bad, badPos = "index stored without a preceding append in the same block", as.Pos()
+				continue
+			}
+			prev, ok := blk.List[i-1].(*ast.AssignStmt)
+			if !ok || len(prev.Lhs) != 1 || len(prev.Rhs) != 1 {
+				bad, badPos = "index stored without a directly preceding append", as.Pos()
+				continue
+			}
+			call, ok := unparen(prev.Rhs[0]).(*ast.CallExpr)
+			if !ok || builtinName(info, call) != "append" || len(call.Args) != 2 || exprStr(call.Args[0]) != exprStr(prev.Lhs[0]) {
+				bad, badPos = "index stored without a directly preceding append", as.Pos()
+				continue
+			}
+			u := exprStr(prev.Lhs[0])
+			be, ok := unparen(as.Rhs[0]).(*ast.BinaryExpr)
+			one, isC := int64(0), false
+			if ok {
+				one, isC = constInt(info, be.Y)
+			}
+			lenOK := false
+			if ok && be.Op == token.SUB && isC && one == 1 {
+				if lc, ok := unparen(be.X).(*ast.CallExpr); ok && builtinName(info, lc) == "len" && exprStr(lc.Args[0]) == u {
+					lenOK = true
+				}
+			}
+			if !lenOK {
+				bad, badPos = "the index recorded for a newly appended element is "+exprStr(as.Rhs[0])+", not len("+u+") − 1 (its position)", as.Pos()
+			}
+		}
+		return true
+	})
+	return n, bad, badPos
+}
